@@ -201,7 +201,8 @@ def h_pbf_way_relation(I, job):
     st = f_bytes(1, b'') + f_bytes(1, b'k') + f_bytes(1, b'v') + f_bytes(1, b'usr') + f_bytes(1, b'role')
     groups = [f_bytes(2, f_bytes(3, way)), f_bytes(2, f_bytes(4, rel))]
     if job.get('swap'): groups.reverse()
-    msg = f_bytes(1, st) + sum(groups, [])
+    la_off, lo_off = job.get('offsets', (0, 0))
+    msg = f_bytes(1, st) + sum(groups, []) + (f_varint(19, la_off) + f_varint(20, lo_off) if job.get('offsets') else [])
     buf = put(I, msg); cap = 1024; out = I.new_obj(cap, 'out', 'heap'); ol = I.new_obj(4, 'ol', 'heap')
     rc = I.concretize(I.call('@verif_primitive_block', [buf, len(msg), 1, out, cap, ol]), 'rc'); I.observe('rc', rc)
     if rc != 0: raise Finding('rejects-valid', 'spec-conformant PrimitiveBlock rejected (rc=%d)' % rc)
@@ -217,8 +218,9 @@ def h_pbf_way_relation(I, job):
             acc = acc + unzigzag_term(I.term(zr[k], 21)); R.expect(acc, 'delta-ref', 'way: node reference %d is not the running sum of the deltas' % k)
             if job['low']:
                 ax = ax + unzigzag_term(zx[k]); ay = ay + unzigzag_term(zy[k])
-                R.expect(z3.ZeroExt(32, z3.Extract(31, 0, ax)), 'location', 'way: longitude of reference %d is not the running sum of the deltas' % k)
-                R.expect(z3.ZeroExt(32, z3.Extract(31, 0, ay)), 'location', 'way: latitude of reference %d is not the running sum of the deltas' % k)
+                cx = z3.simplify((ax * 100 + lo_off) / 100); cy = z3.simplify((ay * 100 + la_off) / 100)          # (offset + granularity * value) / 100, granularity 100
+                R.expect(z3.ZeroExt(32, z3.Extract(31, 0, cx)), 'location', 'way: longitude of reference %d is not (lon_offset + granularity * running sum) / 100' % k)
+                R.expect(z3.ZeroExt(32, z3.Extract(31, 0, cy)), 'location', 'way: latitude of reference %d is not (lat_offset + granularity * running sum) / 100' % k)
             else: R.expect(UNDEF32, 'location', 'x'); R.expect(UNDEF32, 'location', 'y')
         R.expect(1, 'tags', 'way: tags'); R.string('k', 'way tag key'); R.string('v', 'way tag value')
     def do_rel():
@@ -541,8 +543,8 @@ def harnesses(tier):
                 tests=[dict(_job=0, ev0=1, ev1=2, ev2=6, ev3=6, ch0=65, ch1=66, ch2=67)],
                 desc='XMLParser element callbacks on every schema-conformant event script inside <changeset> (one <discussion> with <comment>s, at most one <text> each, character data delivered in one or several pieces with symbolic bytes, <tag>s): the delivered changeset has exactly the script\'s tags and comments, each comment text being the concatenation of its character-data pieces',
                 bounds='event scripts of the listed lengths (<= %d) over 7 event kinds, 3 symbolic character bytes; expat itself (tokenising, entity decoding, attribute order) is not encoded' % (7 if tier == 'quick' else 9)),
-        Harness('pbf_way_relation', 'decode', h_pbf_way_relation, jobs=[dict(low=0), dict(low=1), dict(low=0, swap=1)],
-                desc='PBFPrimitiveBlockDecoder on a block with one Way (three node references as symbolic zig-zag deltas, with and without the delta-coded locations of the locations-on-ways extension) and one Relation (three members: symbolic member types, member ids as symbolic zig-zag deltas, roles through the string table), both with Info and a tag, groups in either order: references / member ids are the running sums, types and roles as given, metadata and tags from the string table',
+        Harness('pbf_way_relation', 'decode', h_pbf_way_relation, jobs=[dict(low=0), dict(low=1), dict(low=0, swap=1), dict(low=1, offsets=(300, 700)), dict(low=1, offsets=(1000000, 0))],
+                desc='PBFPrimitiveBlockDecoder on a block with one Way (three node references as symbolic zig-zag deltas, with and without the delta-coded locations of the locations-on-ways extension, with different lat / lon offsets of the block) and one Relation (three members: symbolic member types, member ids as symbolic zig-zag deltas, roles through the string table), both with Info and a tag, groups in either order: references / member ids are the running sums, types and roles as given, metadata and tags from the string table',
                 bounds='3 references / 3 members; 21-bit symbolic deltas, 14-bit symbolic ids; coordinate deltas of the way nodes concrete'),
         Harness('o5m_member_deltas', 'chunk', h_o5m_member_deltas, jobs=[dict(reset=0), dict(reset=1), dict(reset=2)], setup=__import__('C06').setup_env,
                 desc='O5mParser on a file with two ways and two relations: way node references (one chain across ways) and relation member ids (one chain per member type node / way / relation) are running sums of symbolic zig-zag deltas, object ids form one chain, inline role strings; a reset marker between the ways or between the relations restarts every chain at 0',
